@@ -993,3 +993,18 @@ class WaiterDeque:
         f.member = True
         f.flag = (self.set_count - own_set >= 1)
         return f
+
+
+class suppress:
+    """contextlib.suppress(*classes)."""
+
+    def __init__(self, *excs):
+        self.excs = excs
+
+    def __enter__(self):
+        return None
+
+    def __exit__(self, et, ev, tb):
+        if ev is None:
+            return False
+        return isinstance(ev, self.excs)
